@@ -544,6 +544,7 @@ func TestC19(t *testing.T) {
 		nextType++
 		return c
 	}, Exec: execFirstFormat}, len(firstFormatTypes))
+	core.Stress(r, core.Check[firstRankCase]{Name: "first-rank", Gen: genFirstRank, Exec: execFirstRank}, r.N(24, 40))
 	core.Stress(r, core.Check[registryCase]{Name: "class-registries", Gen: func(s core.Source) registryCase {
 		return registryCase{Type: s.Choose(8, "type"), Goroutines: 2 + s.Choose(15, "goroutines")}
 	}, Exec: execRegistry}, r.N(8, 8))
